@@ -150,7 +150,30 @@ pub fn sites(tier: Tier) -> Vec<Site> {
             let mut s = String::new();
             for _ in 0..l { s.push(a[(j % 22) as usize]); j /= 22; }
             check(&s, i, "reserved-and-escape-letters", acc);
-        })]
+        }),
+    {
+        // every character of the repertoire right behind a caret, behind
+        // an escaped caret, and in front of a digit: what counts as a colour digit, an escape letter or a
+        // marker letter must not depend on look-alikes
+        let t = crate::reftext::Tables::load();
+        // (characters of no page become '?' on the wire - C10's business - so the repertoire it is)
+        let mut chars: Vec<char> = (0x20u32..0x7f).filter_map(char::from_u32).collect();
+        chars.extend(t.union.iter().filter(|c| (**c as u32) >= 0x80));
+        let chars = std::sync::Arc::new(chars);
+        let n = chars.len() as u64 * 4;
+        Site::new("caret-then-any-character", n,
+            "every character c of the union repertoire of the ten pages (~30 000) in the contexts ^c, a^cb, ^^c, c^1: escape / unescape / strip / wire round trip as for every other string",
+            move |i, acc| {
+                let c = chars[(i / 4) as usize];
+                let s = match i % 4 {
+                    0 => format!("^{c}"),
+                    1 => format!("a^{c}b"),
+                    2 => format!("^^{c}"),
+                    _ => format!("{c}^1"),
+                };
+                check(&s, i, "caret-then-any-character", acc);
+            })
+    }]
 }
 
 pub fn run(tier: Tier, replay: Option<String>) -> i32 {
